@@ -130,11 +130,17 @@ def build_model(prop):
     return True, exe, out + out2
 
 
-def build_harness():
-    exe = os.path.join(BUILD, 'harness')
+def build_harness(race=False):
+    """Build the Go harness against /repo's working tree (-tags verif); with race=True under the race detector."""
+    exe = os.path.join(BUILD, 'harness-race' if race else 'harness')
     hd = os.path.join(ROOT, 'harness')
-    with Lock('harness.lock'):
-        rc, out = sh(['go', 'build', '-tags', 'verif', '-o', exe, '.'], cwd=hd, env=GOENV, timeout=1800)
+    cmd = ['go', 'build', '-tags', 'verif']
+    env = GOENV
+    if race:
+        cmd.append('-race')
+        env = dict(GOENV, CGO_ENABLED='1')
+    with Lock('harness-race.lock' if race else 'harness.lock'):
+        rc, out = sh(cmd + ['-o', exe, '.'], cwd=hd, env=env, timeout=1800)
     return rc == 0, exe, out
 
 
@@ -257,7 +263,7 @@ def main(argv):
     okm, mexe, mlog = build_model(prop)
     if not okm:
         problems.append({'what': 'model extraction/compilation failed', 'log': mlog[-3000:]})
-    okh, hexe, hlog = build_harness()
+    okh, hexe, hlog = build_harness(race=bool(cfg.get('race')))
     if not okh:
         problems.append({'what': 'harness does not build against /repo (hooks or API changed)', 'log': hlog[-3000:]})
 
@@ -297,8 +303,13 @@ def main(argv):
                 with open(cases, 'a') as cf:
                     cf.write(open(gen_tmp).read())
                 os.remove(gen_tmp)
+        runenv = dict(os.environ)
+        if cfg.get('race'):
+            racelog = os.path.join(work, 'race')
+            runenv['GORACE'] = 'log_path=%s halt_on_error=0 exitcode=0 history_size=3' % racelog
+            runenv['VERIF_RACE_LOG'] = racelog
         rc, out = sh([hexe, 'run', hname, '-in', cases, '-out', goout, '-modelin', modelin, '-stats', statsf],
-                     timeout=cfg.get('run_timeout', 3000))
+                     env=runenv, timeout=cfg.get('run_timeout', 3000))
         if rc != 0:
             # the harness itself crashed: an uncaught failure of the implementation under test
             problems.append({'what': 'harness run failed (exit %d)' % rc, 'log': out[-3000:]})
